@@ -81,12 +81,13 @@ var profiles = map[string]profile{
 		goStmts:    true,
 		strict:     true,
 	},
-	// System.Start / Stop / stop and the start-up chain (system.go, system_chains.go): statusLock, the
-	// context-guard goroutine, the unsynchronised reads of s.Context / s.clusterContext, Kill(root), cancel,
+	// System.Start / Stop / stop and the start-up chain (system.go, system_chains.go): statusLock, actorOfLock
+	// (System.ActorOf: taken by the start-up chain for @metrics / @remoting / @cluster while Start holds statusLock -
+	// a lock order the controlled scheduler has to see), the context-guard goroutine, the unsynchronised reads of s.Context / s.clusterContext, Kill(root), cancel,
 	// the select on guardClosedSignal / time.After, scheduler.Stop
 	"system": {
 		wrap:        rx(`^s\.cancel$`, `^s\.Context\.Kill$`, `^s\.scheduler\.Stop$`, `^s\.clusterContext\.Leave$`),
-		locks:       rx(`^s\.statusLock$`),
+		locks:       rx(`^s\.(statusLock|actorOfLock)$`),
 		recvClosed:  rx(`^s\.options\.Context\.Done\(\)$`, `^s\.guardClosedSignal$`),
 		yieldStmt:   rx(`^system\.Context, err = NewContext\(`, `^if s\.Context != nil \{`, `^if s\.clusterContext != nil \{`, `^if system\.options\.Metrics != nil \{`),
 		selectTimer: true,
